@@ -41,6 +41,8 @@ def run(ck):
     ck.rule("C06.R9", "enter / exit / current_span / new_span reach the registry through Dispatch unchanged (as C09.R4)", floor=4)
     ck.rule("C06.R10", "root / contextual / explicit parent is encoded and decoded consistently: Attributes and Event constructors store the Parent variant their name says, and is_root / is_contextual / parent read back exactly that variant", floor=10)
     ck.rule("C06.R11", "ancestors stay readable while anything refers to them: the registry's reference count moves by atomic read-modify-write only, with the release/acquire pairing of the last decrement (as C05.R2)", floor=3)
+    ck.rule("C06.R13", "a span entered through the handle leaves the current-span stack when the scope ends, by return or by unwinding: the guards' drops, "
+            "in_scope and EnteredSpan::exit exit exactly once (as C03.R5)", floor=5)
     ck.rule("C06.R12", "`current span` is asked of the emitting thread's current collector: get_default's path choice and who may write the per-thread default (as C02.R2/R3)", floor=6)
     ck.rule("C06.R5", "captured span traces hold counted handles and are read back through the handle's own collector", floor=2)
     ck.rule("C06.R8", "every macro form hands the written `parent:` (a span, or None for an explicit root) to the constructor, and only contextual forms use the current span", floor=300)
@@ -54,6 +56,10 @@ def run(ck):
     from rules import C02 as _C02
     _C02.r2(ck, F, rid="C06.R12")
     _C02.r3(ck, F, rid="C06.R12")
+    # the registry's per-thread stack mirrors the thread's history only if every enter the handle makes is exited -- also
+    # when the code in between unwinds: guards, in_scope and EnteredSpan::exit (C03.R5, instantiated)
+    from rules import C03 as _C03
+    _C03.r5(ck, F, rid="C06.R13")
     from rules import C05 as _C05
     _C05.r2(ck, F, rid="C06.R11")
     from rules import C09 as _C09
